@@ -110,11 +110,33 @@ def _init_worker(pid):
     _MOD = importlib.import_module('props.' + pid)
 
 
+class _CaseTimeout(BaseException):
+    pass
+
+
+def _alarm(signum, frame):
+    raise _CaseTimeout()
+
+
 def _run_case(case):
+    import signal
+    limit = int(os.environ.get('VERIF_CASE_TIMEOUT', '120'))
+    try:
+        signal.signal(signal.SIGALRM, _alarm)
+        signal.alarm(limit)
+    except Exception:
+        pass
     try:
         return _MOD.run_case(case)
+    except _CaseTimeout:
+        return {'harness_error': 'case-timeout: no result within %d s' % limit}
     except Exception as e:  # a harness crash is a check error, never a pass
         return {'harness_error': '%s: %s' % (type(e).__name__, e), 'trace': traceback.format_exc()[-2000:]}
+    finally:
+        try:
+            signal.alarm(0)
+        except Exception:
+            pass
 
 
 def evaluate_cases(mod, cases, pool):
@@ -168,7 +190,7 @@ def evaluate_cases(mod, cases, pool):
     return out
 
 
-def shrink(mod, case, fail, pool, budget_s=120, known=()):
+def shrink(mod, case, fail, pool, budget_s=25, known=()):
     """greedy delta debugging with the property's own candidate generator; keeps the same failing clause"""
     if not hasattr(mod, 'shrink_candidates') or os.environ.get('VERIF_NO_SHRINK') == '1':
         return case, fail
@@ -263,7 +285,7 @@ def main():
     pool = None
     if rc == 0 or os.path.exists(common.DSGM):
         ctx = mp.get_context('fork')
-        pool = ctx.Pool(common.NPROC, initializer=_init_worker, initargs=(pid,), maxtasksperchild=200)
+        pool = ctx.Pool(common.NPROC, initializer=_init_worker, initargs=(pid,))
         try:
             if replay:
                 doc = json.load(open(replay if os.path.isabs(replay) else os.path.join(VERIF, replay)))
